@@ -118,6 +118,8 @@ class Interp:
         cryptomodel.install(self)
         from . import scapymodel
         scapymodel.install(self)
+        from . import regex
+        regex.install(self)
 
     # ------------------------------------------------------------------ modules
     def module(self, name):
@@ -192,6 +194,9 @@ class Interp:
             bases.append(bv)
         c._bases = bases
         c.is_enum = any(isinstance(b, External) and b.dotted in ("enum.Enum", "enum.IntEnum") for b in bases)
+        outer = frame
+        frame = Frame(None, _ClassScope(c, outer.locals))
+        frame.module = outer.module
         for st in node.body:
             if isinstance(st, ast.FunctionDef):
                 c.methods[st.name] = FuncVal(m, st, c)
@@ -1035,6 +1040,28 @@ class Interp:
         if isinstance(t, bool):
             return t
         return core.CUR.fork(t.t)
+
+
+class _ClassScope(dict):
+    """name lookup inside a class body: names defined so far in the class, then the enclosing scope"""
+
+    def __init__(self, cls, outer):
+        dict.__init__(self)
+        self.cls = cls
+        self.outer = outer
+
+    def __contains__(self, k):
+        return k in self.cls.attrs or k in self.cls.methods or k in self.outer
+
+    def __getitem__(self, k):
+        if k in self.cls.attrs:
+            return self.cls.attrs[k]
+        if k in self.cls.methods:
+            return self.cls.methods[k]
+        return self.outer[k]
+
+    def get(self, k, d=None):
+        return self[k] if k in self else d
 
 
 class ModuleRef:
